@@ -73,7 +73,8 @@ EXHAUSTIVE = {'quick': 'all strings of length <= 4 over {@ a 1 { } ( ) " , = # %
 TRUSTED_BASE = ['modelled (not verified) code: pybtex/database/input/bibtex.py LowLevelParser and Parser, pybtex/scanner.py Scanner, textutils.normalize_whitespace, BibliographyData.add_entry/add_to_preamble, errors.report_error (three modes), LowLevelParser.get_error_context (only its partial operation), split_name_list and Person through Model/BibtexStr.v and Model/Names.v; regexes are hand-written matchers swept against the live objects',
                 'non-strict mode is observed through the warnings printed to pybtex.io.stderr (replaced by a StringIO)']
 ASSUMPTIONS = ['Python str.isspace / regex \\s = the 29 code points of Base/PyChar.is_space', 'str.lower() = ASCII lower on the characters used as keys / identifiers (non-ASCII cased letters are outside the generated domain)']
-PARTIAL = ['the reader options (wanted_entries, keyless_entries, macros, person_fields) are modelled in Model/BibParserOpt.v and tied on every run, but the theorems are proved for the default options only',
+PARTIAL = ['for the reader with options (Model/BibParserOpt.v) totality, located errors, capture = non-strict and strict-raises-first are proved (*_options); the confinement theorems are about the default options',
+           'character-level suffix confinement (entries after a balanced malformed entry) is not proved: command level + oracle only',
            'confinement is proved at command level (Props/C10.v: prefix_confinement_partial / suffix_confinement_partial); the character-level statement for arbitrary balanced corrupted text is left to the correspondence run and the oracle',
            'errors_located is proved for syntax errors (line = 1 + line breaks consumed, position inside the command); that the position is the "offending construct" in the user\'s sense is not formalised']
 
